@@ -5,7 +5,7 @@
 //   tbl_driver run <histories.ndjson> <shard> <nshards> <out.ndjson>
 //   tbl_driver runblk <histories.ndjson> <shard> <nshards> <out.ndjson>   whole blocks: items, copies, reads (BlockValue.tla)
 //
-// History: {"ops":[{"op":"add","t":slot,"v":id},{"op":"clear","t":..},
+// History: {"ops":[{"op":"add","t":slot,"v":id},{"op":"addv","t":slot,"v":id} (add_value: no de-duplication),{"op":"clear","t":..},
 //                  {"op":"copy","src":..,"dst":..},{"op":"destroy","t":..}]}
 // Each history is executed for every table kind and copy manner.  Value ids are mapped
 // to concrete table values built in a FRESH object for every call.
@@ -84,6 +84,16 @@ static index_t do_add(CdnsBlock& b, const std::string& tab, int id) {
     if (tab == "rr") return b.add_rr(mk_rr(id));
     return b.add_malformed_message_data(mk_mmd(id));
 }
+// BlockTable::add_value(): append without looking the value up (what the reader does with every entry of a file)
+static index_t do_addv(CdnsBlock& b, const std::string& tab, int id) {
+    if (tab == "ip" || tab == "name") { StringItem it; it.data = mk_string(id); return (tab == "ip" ? b.m_ip_address : b.m_name_rdata).add_value(it); }
+    if (tab == "ct") return b.m_classtype.add_value(mk_ct(id));
+    if (tab == "sig") return b.m_qr_sig.add_value(mk_sig(id));
+    if (tab == "qlist" || tab == "rrlist") { IndexListItem it; it.list = mk_list(id); return (tab == "qlist" ? b.m_qlist : b.m_rrlist).add_value(it); }
+    if (tab == "qrr") return b.m_qrr.add_value(mk_q(id));
+    if (tab == "rr") return b.m_rr.add_value(mk_rr(id));
+    return b.m_malformed_message_data.add_value(mk_mmd(id));
+}
 static std::size_t tab_size(CdnsBlock& b, const std::string& tab) {
     if (tab == "ip") return b.m_ip_address.size();
     if (tab == "name") return b.m_name_rdata.size();
@@ -150,7 +160,7 @@ static void run_history(const json& h, const std::string& tab, const std::string
     vh::trace().emit({{"e", "R"}, {"tab", tab}, {"how", how}, {"cls", cls}});
     std::map<int, Slot> slots;
     std::vector<int> cands;
-    for (auto& o : h["ops"]) if (o["op"] == "add") { int v = o["v"]; if (std::find(cands.begin(), cands.end(), v) == cands.end()) cands.push_back(v); }
+    for (auto& o : h["ops"]) if (o["op"] == "add" || o["op"] == "addv") { int v = o["v"]; if (std::find(cands.begin(), cands.end(), v) == cands.end()) cands.push_back(v); }
     if (cls == "blockread") slots[1].blk = std::shared_ptr<CdnsBlockRead>(new CdnsBlockRead());
     else slots[1].blk = std::shared_ptr<CdnsBlock>(new CdnsBlock());
     for (auto& o : h["ops"]) {
@@ -160,6 +170,11 @@ static void run_history(const json& h, const std::string& tab, const std::string
             CdnsBlock& b = *slots[t].blk;
             index_t idx = do_add(b, tab, v);
             vh::trace().emit({{"e", "A"}, {"t", t}, {"v", v}, {"idx", idx}, {"size", tab_size(b, tab)}, {"back", id_at(b, tab, idx, cands)}});
+        } else if (op == "addv") {
+            int t = o["t"], v = o["v"];
+            CdnsBlock& b = *slots[t].blk;
+            index_t idx = do_addv(b, tab, v);
+            vh::trace().emit({{"e", "AV"}, {"t", t}, {"v", v}, {"idx", idx}, {"size", tab_size(b, tab)}, {"back", id_at(b, tab, idx, cands)}});
         } else if (op == "clear") {
             int t = o["t"];
             slots[t].blk->clear();
